@@ -93,6 +93,27 @@ pub fn judge_pipe(case: &Case, acc: &mut Acc) {
     }
 }
 
+/// The consumer takes a few bytes of the FIRST input's (already flushed) output
+/// and leaves; only then does a second, small input arrive on stdin. Its output
+/// fits in the stdout buffer, so the failure is met in the per-input flush.
+pub fn judge_late_small_input(to: Fmt, k: usize, first_bytes: usize, acc: &mut Acc) {
+    acc.evals += 1;
+    let sc = Scratch::new();
+    sc.file("first.json", &big_json(first_bytes, false));
+    let argv: Vec<String> = vec!["-t".into(), to.name().into(), "first.json".into(), "-".into()];
+    let out = procmon::run(Run { bin: &procmon::release_bin(), argv, cwd: sc.path(), stdin: StdinKind::BytesAfterConsumerLeft(b"{\"late\": [1, 2, 3]}\n".to_vec()), stdout: StdoutKind::CloseAfter(k), wall_secs: 120, cpu_secs: 60 });
+    acc.count("late_small_input_runs");
+    if matches!(out.status, Status::Timeout | Status::SpawnError(_)) || out.stdout.len() != k {
+        acc.inconclusive += 1;
+        return;
+    }
+    if out.status == Status::Signal(libc::SIGPIPE) && out.stderr.is_empty() {
+        acc.count("killed_by_sigpipe_silently");
+    } else {
+        acc.violation(Violation { sig: format!("consumer left before a later small input, to={}: {}", to.name(), out.status.show()), case: json!({"late_small_input": true, "to": to.name(), "k": k, "first_bytes": first_bytes}), observed: format!("status {}, stderr [{}]", out.status.show(), preview(&out.stderr, 200)), expected: "killed by SIGPIPE with nothing on stderr (never exit status 0 with output missing)".into() });
+    }
+}
+
 pub fn judge_devfull(to: Fmt, bytes: usize, acc: &mut Acc) {
     acc.evals += 1;
     let sc = Scratch::new();
@@ -148,9 +169,15 @@ pub fn run(ctx: &Ctx) -> i32 {
             judge_devfull(to, bytes, &mut acc);
         }
     }
-    let rule = format!("{} closing-pipe runs: the consumer takes exactly k bytes for k in {:?} and closes while more than 1 MiB of output remains, x 4 targets x input layouts (one 3 MiB file, 3 MiB on stdin, ten 400 KiB files so that the failure is also met in the per-input flush), single-table and multi-document inputs; plus 16 runs with stdout on /dev/full (outputs below and above the 8 KiB buffer); distinct non-trivial = distinct (target, k, layout) cases", cs.len(), KS);
+    // TOML takes one input only; the other three targets get the late-input layout
+    for to in [Fmt::Json, Fmt::Msgpack, Fmt::Yaml] {
+        for (k, first) in [(0usize, 300usize), (4, 300), (4, 20_000), (100, 9_000), (1, 40_000)] {
+            judge_late_small_input(to, k, first, &mut acc);
+        }
+    }
+    let rule = format!("{} closing-pipe runs: the consumer takes exactly k bytes for k in {:?} and closes while more than 1 MiB of output remains, x 4 targets x input layouts (one 3 MiB file, 3 MiB on stdin, ten 400 KiB files so that the failure is also met in the per-input flush), single-table and multi-document inputs; plus 16 runs with stdout on /dev/full (outputs below and above the 8 KiB buffer) and 15 runs in which the consumer leaves after the first input's output and a second, small input arrives only afterwards (failure met in the per-input flush); distinct non-trivial = distinct (target, k, layout) cases", cs.len(), KS);
     ev::finish(
-        Finish { ctx, level: "fault_enumeration", rule, assumptions: vec!["the kernel's pipe semantics: a write to a pipe whose read end is closed fails with EPIPE".into(), "a run in which the consumer could not obtain k bytes is inconclusive, not a violation".into()], extra: serde_json::Map::new(), exhaustive: false, min_distinct: 40, must_reach: vec![("killed_by_sigpipe_silently".into(), 40), ("dev_full_runs".into(), 16), ("layout_many_files".into(), 5), ("layout_stdin".into(), 5)] },
+        Finish { ctx, level: "fault_enumeration", rule, assumptions: vec!["the kernel's pipe semantics: a write to a pipe whose read end is closed fails with EPIPE".into(), "a run in which the consumer could not obtain k bytes is inconclusive, not a violation".into()], extra: serde_json::Map::new(), exhaustive: false, min_distinct: 40, must_reach: vec![("killed_by_sigpipe_silently".into(), 40), ("dev_full_runs".into(), 16), ("late_small_input_runs".into(), 15), ("layout_many_files".into(), 5), ("layout_stdin".into(), 5)] },
         acc,
     )
 }
@@ -159,7 +186,9 @@ pub fn replay(v: &Value) -> i32 {
     let c = &v["case"];
     let mut acc = Acc::default();
     let Some(to) = c["to"].as_str().and_then(Fmt::parse) else { return 2 };
-    if c["devfull"].as_bool() == Some(true) {
+    if c["late_small_input"].as_bool() == Some(true) {
+        judge_late_small_input(to, c["k"].as_u64().unwrap_or(0) as usize, c["first_bytes"].as_u64().unwrap_or(300) as usize, &mut acc);
+    } else if c["devfull"].as_bool() == Some(true) {
         judge_devfull(to, c["bytes"].as_u64().unwrap_or(200) as usize, &mut acc);
     } else {
         let layout: &'static str = match c["layout"].as_str() {
